@@ -183,7 +183,7 @@ def handle (j : Json) : Json :=
         let gp := pruneObsInputs g
         let re := injectBranching (spliceAll obs (unsplice gp))
         Json.mkObj [("root", jstr (((findRoot g).map (fun r => kindStr (g.kind r))).getD "?")),
-          ("ordered", Json.bool g.ordered), ("arms", Json.arr arms.toArray),
+          ("ordered", Json.bool g.ordered), ("wf", Json.bool (armsWF g)), ("arms", Json.arr arms.toArray),
           ("resplice", Json.bool (canon re == canon gp)),
           ("invariant", Json.bool (invariantHolds g obs.length && invariantHolds re obs.length))])
       Json.mkObj [("route", jnat h), ("known", Json.bool info.isSome),
